@@ -1630,6 +1630,45 @@ func (w *Writer) writeMathExpression(e ir.ExprMath) error {
 		return nil
 	}
 
+	// Special case: HLSL has no inverse hyperbolic functions (in any shader
+	// model); write the logarithmic forms, as Rust naga does:
+	//   asinh(x) = log(x + sqrt(x * x + 1.0))
+	//   acosh(x) = log(x + sqrt(x * x - 1.0))
+	//   atanh(x) = (0.5 * log((1.0 + x) / (1.0 - x)))
+	switch e.Fun {
+	case ir.MathAsinh, ir.MathAcosh:
+		w.Out.WriteString("log(")
+		if err := w.writeExpression(e.Arg); err != nil {
+			return fmt.Errorf("math arg: %w", err)
+		}
+		w.Out.WriteString(" + sqrt(")
+		if err := w.writeExpression(e.Arg); err != nil {
+			return fmt.Errorf("math arg: %w", err)
+		}
+		w.Out.WriteString(" * ")
+		if err := w.writeExpression(e.Arg); err != nil {
+			return fmt.Errorf("math arg: %w", err)
+		}
+		if e.Fun == ir.MathAsinh {
+			w.Out.WriteString(" + 1.0))")
+		} else {
+			w.Out.WriteString(" - 1.0))")
+		}
+		return nil
+	case ir.MathAtanh:
+		// parenthesised: the form is a product and may be pasted next to / or *
+		w.Out.WriteString("(0.5 * log((1.0 + ")
+		if err := w.writeExpression(e.Arg); err != nil {
+			return fmt.Errorf("math arg: %w", err)
+		}
+		w.Out.WriteString(") / (1.0 - ")
+		if err := w.writeExpression(e.Arg); err != nil {
+			return fmt.Errorf("math arg: %w", err)
+		}
+		w.Out.WriteString(")))")
+		return nil
+	}
+
 	// Special case: Pack4xI8/U8/I8Clamp/U8Clamp — inline polyfill
 	// Matches Rust naga's Function::Pack4x{I8,U8,I8Clamp,U8Clamp} handling.
 	switch e.Fun {
